@@ -89,7 +89,7 @@ theorem open_r_refuses_patching (s : State) (hcl : s.h.closed = false) (ha : s.h
   | none => exact absurd ((lastFile_eq_none _).mp hl) hne
   | some y =>
     obtain ⟨f, ub⟩ := y
-    simp [commitPlain, hcl, ha, fail, Res.W, hl]
+    simp [commitPlain, mfPrep, hcl, ha, fail, Res.W, hl]
 
 /-- **`r` / `r+` on a missing record fail** with `FileNotFoundError`; nothing changes. -/
 theorem open_missing_r_fails (s : State) (c : Bool) (n : Name) (m : Mode) (hm : m = .r ∨ m = .rp)
